@@ -30,13 +30,16 @@ Proof. exact enter_agrees. Qed.
 Print Assumptions C02_enter_agrees.
 
 (* Prefixes of valid programs, bounded version: for every text of length <= 3
-   over 25 metacharacters and of length <= 4 over 16 bytes (incl. a two-byte
-   rune) that the model parses without errors, every proper prefix cut at a
+   over 25 metacharacters, of length <= 4 over 16 bytes (incl. a two-byte
+   rune), and every double-quoted string holding one escape of each form with
+   digits over small sets reaching surrogates, the planes D8000..DFFFF and
+   values above U+10FFFF (C01_sweep.escape_texts; every cut inside the escape is
+   a prefix) that the model parses without errors, every proper prefix cut at a
    rune boundary has only partial errors, each starting at the end of the
    prefix, and isSyntaxComplete is false when there is one.  The unbounded
    statement is C01_sweep.prefix_errors_partial_statement. *)
 Theorem C02_prefix_errors_partial_partial : forall s,
-  in_sweep s -> errs_of s = Some [] -> valid s = true ->
+  in_sweep_C02 s -> errs_of s = Some [] -> valid s = true ->
   forall p, In p (proper_prefixes s) ->
   exists es, errs_of p = Some es
     /\ (forall e, In e es -> e_partial e = true /\ e_from e = length p)
